@@ -122,6 +122,33 @@ def run(repo, rep):
     pcid = item + '.context_id'
     p1, p2, p3, p4 = [], [], [], []
     n_accept = 0
+    # Two-phase acceptors: the loop over the proposal only fills tables, the answers are made afterwards from those tables and
+    # added to the reply in one go (``rsp.extend(answers[i.context_id] for i in request items)``).  The per-iteration rules below
+    # do not read that shape.  What can still be decided is the order: the sequence the emitting expression runs over is the
+    # request's item list itself -- running over sorted(..) / a dict / a set answers in another order than proposed.
+    loop_answers = any(is_token(e.args[0]) and token_class(e.args[0]) == 'PresentationContextItemAC'
+                       for s, _h in outcomes for e in s.trail if e.kind == 'list.append' and e.args)
+    bulk = [e for e, _s in c.log if e.kind == 'list.extend' and e.args]
+    if not loop_answers and bulk:
+        order_probs = []
+        for e in bulk:
+            try:
+                ge = ast.parse(expand_items(e.args[0]), mode='eval').body
+            except SyntaxError:
+                ge = None
+            if not isinstance(ge, (ast.GeneratorExp, ast.ListComp)):
+                continue
+            src = ast.unparse(ge.generators[0].iter)
+            if src == '%s.variable_items[1:-1]' % rq:
+                continue
+            if src.startswith(('sorted(', 'set(', 'frozenset(', 'reversed(')) or 'variable_items' not in src:
+                order_probs.append('the answers are added to the reply by running over %s, not over the request\'s item list: contexts are '
+                                   'answered in that order (sorted ids, or dictionary order), not in the order proposed' % src[:80])
+        rep.check(not order_probs, 'C09.N1', 'asceprovider:AssociationAcceptor.accept:answer-order', f.loc(outer),
+                  'the reply is filled by running over the request\'s items', '; '.join(sorted(set(order_probs))))
+        rep.undecided('C09.N1', '%s: the answers are not made in the loop over the proposed contexts but afterwards, from tables that loop '
+                      'fills (two-phase acceptor): which context gets which answer is not decided for this shape' % f.loc(outer))
+        return
     for s, how in outcomes:
         apps = [e for e in s.trail if e.kind == 'list.append']
         acs = []
